@@ -46,6 +46,9 @@ pub struct GenCfg {
     /// the first transaction loads more than 2^16 entries into one bucket (one leaf node of the
     /// transaction holds them all until commit) and then works on the entries beyond 2^16
     pub giant_tx: bool,
+    /// /100 chance a write tx fills (or, if it exists, deletes) a bucket of a few hundred pages:
+    /// after the deletion the free list is longer than one page and shrinks slowly
+    pub p_big_free: u32,
 }
 
 impl GenCfg {
@@ -102,6 +105,7 @@ impl GenCfg {
             damage_on_reopen: false,
             legacy_restamp: false,
             giant_tx: false,
+            p_big_free: *r.pick(&[0, 0, 12, 25]),
         }
     }
 }
@@ -270,7 +274,10 @@ impl Gen {
                     return Some(Step::Begin { rw: true });
                 }
                 let bulk = self.r.chance(self.cfg.p_bulk as u64, 100) || (self.txs_done == 1 && self.r.chance(1, 2));
-                if self.r.chance(self.cfg.p_many_buckets as u64, 100) {
+                if self.r.chance(self.cfg.p_big_free as u64, 100) {
+                    self.steps_left_in_tx = 0;
+                    self.plan_big_free(ctx.committed);
+                } else if self.r.chance(self.cfg.p_many_buckets as u64, 100) {
                     self.steps_left_in_tx = 0;
                     self.plan_many_buckets(ctx.committed);
                 } else if bulk {
@@ -358,6 +365,29 @@ impl Gen {
             let tag = self.fresh_tag();
             self.queue.push_back(Step::GetOrCreate { path: vec![], name: Blob::Raw(b"zz-m".to_vec()), via: Via::Vec });
             self.queue.push_back(Step::Put { path: vec![b"zz-m".to_vec()], key: Blob::Raw(b"marker".to_vec()), val: Blob::Pat { tag, len: 12 }, via: Via::Vec });
+        }
+        self.queue.push_back(Step::Commit);
+    }
+
+    /// Fill a bucket with a few hundred pages of data, or delete it if it is there: the free list
+    /// then needs more than one page and crosses page boundaries while it is used up.
+    fn plan_big_free(&mut self, committed: &MBucket) {
+        let name = b"BF".to_vec();
+        if matches!(committed.entries.get(&name), Some(Entry::Sub(_))) {
+            *self.macros_used.entry("big_free_delete").or_default() += 1;
+            self.queue.push_back(Step::DeleteBucket { path: vec![], name: Blob::Raw(name) });
+        } else if committed.entries.contains_key(&name) {
+            return self.queue.push_back(Step::Commit);
+        } else {
+            *self.macros_used.entry("big_free_fill").or_default() += 1;
+            self.queue.push_back(Step::GetOrCreate { path: vec![], name: Blob::Raw(name.clone()), via: Via::Vec });
+            let n = self.r.range(130, 300) as u32;
+            let ps = self.cfg.pagesize as u32;
+            for j in 0..n {
+                let tag = self.fresh_tag();
+                let len = ps / 2 + self.r.below(ps as u64 / 3) as u32;
+                self.queue.push_back(Step::Put { path: vec![name.clone()], key: Blob::Raw(format!("bf{:04}", j).into_bytes()), val: Blob::Pat { tag, len }, via: Via::Vec });
+            }
         }
         self.queue.push_back(Step::Commit);
     }
